@@ -12,7 +12,7 @@ import math
 import os
 from fractions import Fraction
 
-from harness import core
+from harness import core, facts
 
 KINDS = ['q', 'qtilde', 'q0']
 BASES = ['normal', 'clipped_normal']
@@ -735,12 +735,23 @@ def simplicity(c):
 def run(ctx):
     rng = ctx.rng
     tie = None
-    ok, txt = core.prove(ctx)
-    if not ok:
-        tie = 'proof obligations of props/C07.v no longer check: ' + txt[-1200:]
+    try:
+        ctx.coverage['translated_from_source'] = extract(ctx)
+    except facts.TieBroken as e:
+        tie = 'translation of pyhf/infer/calculators.py to Gallina failed (harness/props/c07.py:extract): %s' % e
+    if tie is None:
+        ok, txt = core.prove(ctx)
+        if not ok:
+            why = ('the functions translated from the source no longer coincide with the hand model (coq/TieAsympt.v, C07_source_is_model_*): '
+                   if ('Tie' in txt or 'source_is_model' in txt or 'Gen.v' in txt) else 'proof obligations of props/C07.v no longer check: ')
+            tie = why + txt[-1200:]
     rc, mout, _ = core.coq_make(['AsymptRun.vo'])
     if rc != 0:
         tie = tie or ('coq/AsymptRun.v does not build: ' + mout[-800:])
+    model_ok = rc == 0          # the hand model is run for the correspondence even when a tie theorem no longer checks
+    ctx.trusted += ['harness/props/c07.py:extract + harness/props/tie_translate.py (python ast -> Gallina for AsymptoticTestStatDistribution.cdf/pvalue/'
+                    'expected_value, AsymptoticCalculator.distributions/teststatistic (arithmetic after the fits)/pvalues/expected_pvalues; fail closed): '
+                    'C07_source_is_model_* prove the translated definitions equal to the hand model']
     ctx.trusted += ['harness/props/c07.py: replacement of the test-statistic function looked up by the calculator (chosen q, qA reach the '
                     'calculator), class-level recording wrapper around tensorlib.normal_cdf',
                     'the numeric normal cdf of each backend is taken as is (its accuracy is property C04): results are compared against '
@@ -760,7 +771,7 @@ def run(ctx):
 
     # ---- pass 1: the model with Phi := identity gives the arguments the cdf must receive ----
     margs = mbands = mdargs = None
-    if tie is None:
+    if model_ok:
         try:
             e1, e2, e3 = [case_expr(c, 'idq') for c in cases], [band_expr(k, 'idq') for k in bkeys], [dist_expr(d, 'idq') for d in dists]
             res = balanced_eval(ctx, 'args', e1 + e2 + e3, per=60)
